@@ -1,5 +1,5 @@
 """C04 — storage layout and tuning knobs never change the data an application sees."""
-import os, struct, itertools
+import copy, os, struct, itertools
 import numpy as np
 from hypothesis import strategies as st
 from h4verif.exe import Prog, V, Out, OutS, InOut, run, CaseDir, i32s, un_i32s
@@ -11,7 +11,9 @@ LEVEL = "exploration"
 NEED = ("h4x",)
 RULE = ("one logical dataset (rank 1..3, extents 1..9, any number type) and one generated slab history are replayed "
         "under a vector of storage configurations: contiguous baseline, chunked with generated chunk shapes incl. "
-        "non-dividing and larger-than-extent shapes, chunk cache sizes 1..N+1, chunk+{RLE,skphuff,deflate}, "
+        "non-dividing and larger-than-extent shapes, chunk cache sizes 1..N+1, chunk+{RLE,skphuff,deflate}, chunk+n-bit (integer types; all four "
+        "sign-extend/fill-one combinations; expected values are the n-bit projection, or the values as written "
+        "while the chunk cache of the writing session may still serve them), "
         "non-chunked compression with each coder, n-bit, external file with offset, unlimited+blocksize; whole-chunk "
         "SDwritechunk/SDreadchunk interleaved with slab access; every configuration is compared with the array "
         "model (which arbitrates the differential). Thorough adds a bounded-exhaustive sweep over every chunk shape "
@@ -20,8 +22,10 @@ RULE = ("one logical dataset (rank 1..3, extents 1..9, any number type) and one 
 BUDGET = {"quick": {"shards": 8, "cases": 300}, "thorough": {"shards": 16, "cases": 2500}}
 MIN_NT = {"quick": 600, "thorough": 6000}
 ASSUMPTIONS = ["non-chunked compressed / n-bit datasets are written as whole arrays and not read in between "
-               "(coders only support append / full rewrite)", "szip unavailable", "fill mode on"]
-NT_LABELS = {"edge_chunk", "small_cache", "chunk_comp"}
+               "(coders only support append / full rewrite)", "szip unavailable", "fill mode on",
+               "chunked n-bit: a never-written cell may read as the fill value or as its n-bit projection (partly "
+               "written chunks pass their fill cells through the coder, untouched chunks do not)"]
+NT_LABELS = {"edge_chunk", "small_cache", "chunk_comp", "chunk_nbit"}
 HDF_CHUNK, HDF_COMP, HDF_NBIT = 1, 3, 5
 
 
@@ -68,7 +72,13 @@ def config_st(draw, rank, dims, nt):
             nchunks *= -(-d // c)
         cache = draw(st.sampled_from([None, 1, 1, 2, nchunks, nchunks + 1]))
         comp = list(draw(coder_st)) if draw(st.integers(0, 9)) < 4 else None
-        return {"kind": "chunk", "shape": shape, "cache": cache, "comp": comp}
+        cfg = {"kind": "chunk", "shape": shape, "cache": cache, "comp": comp}
+        if comp is None and nt in sm.INT_NTS and draw(st.integers(0, 9)) < 3:
+            # chunked n-bit storage (HDF_CHUNK | HDF_NBIT): the chunk definition carries the n-bit parameters
+            bits = np.dtype(sm.NT[nt][1]).itemsize * 8
+            start = draw(st.integers(0, bits - 1))
+            cfg["nbit"] = [start, draw(st.integers(1, start + 1)), draw(st.integers(0, 1)), draw(st.integers(0, 1))]
+        return cfg
     if k < 70:
         return {"kind": "comp", "comp": list(draw(coder_st))}
     if k < 78 and nt in sm.INT_NTS:
@@ -146,9 +156,13 @@ def run_config(case, cfg, d, labels, tag):
     shape = None
     if kind == "chunk":
         shape = cfg["shape"]
-        flags = HDF_CHUNK | (2 if cfg["comp"] else 0)
-        checks.append((p.call("i", "hx_SDsetchunk", V("s"), chunk_def(shape, comp=cfg["comp"]), flags), "ret0",
-                       "SDsetchunk %s" % cfg))
+        flags = HDF_CHUNK | (2 if cfg["comp"] else 0) | (4 if cfg.get("nbit") else 0)
+        checks.append((p.call("i", "hx_SDsetchunk", V("s"), chunk_def(shape, comp=cfg["comp"], nbit=cfg.get("nbit")),
+                              flags), "ret0", "SDsetchunk %s" % cfg))
+        if cfg.get("nbit"):
+            labels.add("chunk_nbit")
+            if cfg["nbit"][2] != cfg["nbit"][3]:
+                labels.add("chunk_nbit_sign_ne_fill")
         if cfg["cache"]:
             checks.append((p.call("i", "SDsetchunkcache", V("s"), cfg["cache"], 0), "nofail", "SDsetchunkcache"))
         if cfg["comp"]:
@@ -169,21 +183,29 @@ def run_config(case, cfg, d, labels, tag):
     # whatever that file holds (no pre-fill), so the model treats them as unknown there
     m = sm.ArrayModel(nt, cdims, kind != "ext", case["user_fill"])
     total = int(np.prod(dims))
+    nb = cfg.get("nbit")
+    # chunked n-bit: until the file is reopened a read may be served from the chunk cache, which still holds the
+    # values as written (all bits); mr is the model of those, m the model of what the coder keeps
+    mr = [sm.ArrayModel(nt, cdims, True, case["user_fill"])] if (nb and kind == "chunk") else None
+    alts = {}
+
+    def stored(vals):
+        """What a later read must return for written values: n-bit layouts keep only the selected bit field."""
+        return project_values(vals, nt, nb).reshape(vals.shape) if nb else vals
 
     def full_write(seed):
         vals = sm.gen_values(nt, seed, total)
         checks.append((p.call("i", "SDwritedata", V("s"), i32s(*([0] * rank)), None, i32s(*dims), vals.tobytes()),
                        "ret0", "SDwritedata full"))
-        mv = vals
-        if kind == "nbit":
-            mv = project_values(vals, nt, cfg["nbit"]).reshape(-1)
-        m.write([0] * rank, None, dims, mv)
+        m.write([0] * rank, None, dims, stored(vals).reshape(-1))
 
     def do_read(s, sd, cn, what):
         n = int(np.prod(cn))
         ln = p.call("i", "SDreaddata", V("s"), i32s(*s), i32s(*sd) if sd else None, i32s(*cn), Out(n * isz))
         ev, es = m.expect(s, sd, cn)
         checks.append((ln, "read", (ev.copy(), es.copy(), what)))
+        if mr:
+            alts[ln] = mr[0].expect(s, sd, cn)[0].copy()
 
     def reopen():
         checks.append((p.call("i", "SDendaccess", V("s")), "ret0", "SDendaccess"))
@@ -192,6 +214,8 @@ def run_config(case, cfg, d, labels, tag):
         checks.append((p.call("i", "SDselect", V("sd"), 0, bind="s"), "nofail", "SDselect"))
         if kind == "chunk" and cfg["cache"]:
             checks.append((p.call("i", "SDsetchunkcache", V("s"), cfg["cache"], 0), "nofail", "SDsetchunkcache"))
+        if mr:
+            mr[0] = copy.deepcopy(m)    # nothing is cached any more: only what the coder kept can come back
 
     chunk_hits = {}
     if simple:
@@ -218,7 +242,9 @@ def run_config(case, cfg, d, labels, tag):
                 vals = sm.gen_values(nt, seed, n)
                 checks.append((p.call("i", "SDwritedata", V("s"), i32s(*s), i32s(*sd) if sd else None, i32s(*cn),
                                       vals.tobytes()), "ret0", "SDwritedata %s" % op[1:4]))
-                m.write(s, sd, cn, vals)
+                m.write(s, sd, cn, stored(vals))
+                if mr:
+                    mr[0].write(s, sd, cn, vals)
                 if kind == "chunk":
                     touched = set()
                     strd = sd or [1] * rank
@@ -244,13 +270,17 @@ def run_config(case, cfg, d, labels, tag):
                         checks.append((p.call("i", "SDwritechunk", V("s"), i32s(*origin), block.tobytes()), "ret0",
                                        "SDwritechunk %s" % origin))
                         sub = block[valid]
-                        m.write(lo, None, [hi[i] - lo[i] for i in range(rank)], sub.copy().reshape(-1))
+                        m.write(lo, None, [hi[i] - lo[i] for i in range(rank)], stored(sub.copy().reshape(-1)))
+                        if mr:
+                            mr[0].write(lo, None, [hi[i] - lo[i] for i in range(rank)], sub.copy().reshape(-1))
                         chunk_hits[tuple(origin)] = chunk_hits.get(tuple(origin), 0) + 1
                         labels.add("whole_chunk_write")
                     else:
                         ln = p.call("i", "SDreadchunk", V("s"), i32s(*origin), Out(csize * isz))
                         ev, es = m.expect(lo, None, [hi[i] - lo[i] for i in range(rank)])
                         checks.append((ln, "rchunk", (ev.copy(), es.copy(), shape, valid, origin)))
+                        if mr:
+                            alts[ln] = mr[0].expect(lo, None, [hi[i] - lo[i] for i in range(rank)])[0].copy()
                         labels.add("whole_chunk_read")
                 elif k0 == "wchunk":
                     # same logical operation under a non-chunked layout: a slab write of a generated region
@@ -314,7 +344,16 @@ def run_config(case, cfg, d, labels, tag):
                 raise Fail("read failed", what=what, config=cfg, program=p.text()[:4000])
             gb = got.view(np.uint8).reshape(len(got), -1)
             eb = ev.view(np.uint8).reshape(len(ev), -1)
-            bad = np.nonzero((es != 3) & (gb != eb).any(axis=1))[0]
+            diff = (gb != eb).any(axis=1)
+            if cfg.get("nbit"):
+                # a fill cell of a partly written chunk went through the n-bit coder with that chunk, a fill cell
+                # of a chunk never written did not: either the fill value or its n-bit projection is right
+                pb = project_values(ev, nt, cfg["nbit"]).reshape(-1).view(np.uint8).reshape(len(ev), -1)
+                diff &= ~((es == 2) & ~(gb != pb).any(axis=1))
+                if ln in alts:
+                    ab = alts[ln].view(np.uint8).reshape(len(ev), -1)
+                    diff &= (gb != ab).any(axis=1)
+            bad = np.nonzero((es != 3) & diff)[0]
             if len(bad):
                 i = int(bad[0])
                 raise Fail("value differs from array model under this layout", what=what, config=cfg, cell=i,
